@@ -3,7 +3,7 @@
 (* documents are read from IOEnv.DOCS (ndjson, file-side values), every lexical and structural   *)
 (* knob is chosen nondeterministically, the Producer lays the file out, the StrictReader must     *)
 (* read it back as the document (RoundTrip), and each complete file is printed for lopdf to load. *)
-EXTENDS SyntaxProducer, TLC, Json, IOUtils
+EXTENDS SyntaxProducer, Revisions, TLC, Json, IOUtils
 
 Docs == ndJsonDeserialize(IOEnv.DOCS)
 
@@ -14,14 +14,21 @@ VARIABLES di,     \* index of the document being produced
 
 vars == <<pvars, di, fin>>
 
+ObjsOf(js) == [i \in 1..Len(js) |-> [num |-> js[i][1], gen |-> js[i][2], val |-> ObjOf(js[i][3])]]
 FileDoc(j) ==
-    [version |-> j.version, binmark |-> j.binmark, trailer |-> DictOfPairs(j.trailer),
-     objs |-> [i \in 1..Len(j.objects) |-> [num |-> j.objects[i][1], gen |-> j.objects[i][2], val |-> ObjOf(j.objects[i][3])]]]
+    [version |-> j.version, binmark |-> j.binmark,
+     revs |-> [r \in 1..Len(j.revs) |->
+                 [objs |-> ObjsOf(j.revs[r].objects),
+                  trailer |-> DictOfPairs(j.revs[r].trailer),
+                  comp |-> [c \in 1..Len(j.revs[r].comp) |->
+                              [cnum |-> j.revs[r].comp[c].cnum,
+                               members |-> [m \in 1..Len(j.revs[r].comp[c].members) |->
+                                              [num |-> j.revs[r].comp[c].members[m][1], val |-> ObjOf(j.revs[r].comp[c].members[m][2])]]]]]]]
 
 JunkChoices == { <<>>, <<106, 117, 110, 107, 10>>, <<0, 255, 37, 80, 68, 13, 10, 32>> }
 WChoices == { <<1, 2, 1>>, <<1, 4, 2>>, <<1, 3, 0>>, <<0, 2, 2>>, <<2, 8, 2>> }
 
-MaxGen(doc) == FoldLeft(LAMBDA acc, o : IF o.gen > acc THEN o.gen ELSE acc, 0, doc.objs)
+MaxGen(doc) == FoldLeft(LAMBDA acc, r : FoldLeft(LAMBDA a2, o : IF o.gen > a2 THEN o.gen ELSE a2, acc, doc.revs[r].objs), 0, [r \in 1..Len(doc.revs) |-> r])
 
 Init ==
     /\ di \in 1..Len(Docs)
@@ -33,10 +40,12 @@ Init ==
           IN \* generation numbers must fit field 3 of the chosen W
              /\ (w[3] = 0 => MaxGen(doc) = 0) /\ (w[3] = 1 => MaxGen(doc) <= 255)
              /\ (w[1] = 0 => xref # "stream1")
+             /\ ((w[1] = 0 \/ w[3] = 0) => \A r \in 1..Len(doc.revs) : doc.revs[r].comp = <<>>)   \* type-2 entries need fields 1 and 3
              /\ (xref \in {"table1", "tableN"} => w = <<1, 2, 1>> /\ ~noindex)       \* W irrelevant for tables
-             /\ plan = [doc |-> doc, k |-> k, xrefoff |-> 0]
+             /\ (Len(doc.revs) > 1 => xref \in {"tableN", "streamN"})             \* updates list only what changed
+             /\ plan = InitPlan(doc, k)
              /\ todo = FilePlan(doc, k)
-    /\ out = <<>> /\ offs = EmptyMap /\ fin = FALSE
+    /\ out = <<>> /\ offs = EmptyMap /\ outer = <<>> /\ moffs = <<>> /\ fin = FALSE
 
 Finish == todo = <<>> /\ ~fin /\ fin' = TRUE /\ UNCHANGED <<pvars, di>>
 
@@ -46,25 +55,32 @@ Spec == Init /\ [][Next]_vars
 
 Done == fin
 
-\* what the file defines: the document's objects (streams with the Length the Producer wrote), plus,
-\* in cross-reference-stream files, the XRef stream object itself
-Expected(o) == IF o.val.k = "stream" THEN OStream(StreamDictWritten(o, 0), o.val.w) ELSE o.val
+\* what the file defines: Revisions!View of the history (streams with the Length the Producer wrote);
+\* in cross-reference-stream files additionally the XRef streams and the object-stream containers
+ExpectedVal(v) == IF v.k = "stream" THEN OStream(StreamDictWritten([val |-> v], 0), v.w) ELSE v
 
-BookKeysF == {NameSize, NameType, NameW, NameIndex, NameLength}
+BookKeysF == {NameSize, NameType, NameW, NameIndex, NameLength, NamePrev}
+
+ContainerNums == IF UseComp(K) THEN UNION {{Doc.revs[r].comp[c].cnum : c \in 1..Len(Doc.revs[r].comp)} : r \in 1..Len(Doc.revs)} ELSE {}
 
 RoundTrip ==
-    Done => LET rd == RdFile(out) IN
+    Done => LET rd == RdFile(out)
+                vw == View(Doc.revs)
+            IN
             /\ rd.ok
             /\ rd.version = Doc.version
             /\ rd.junk = K.junk
-            /\ \A i \in 1..Len(Doc.objs) :
-                  /\ Has(rd.view, Doc.objs[i].num)
-                  /\ rd.view[Doc.objs[i].num].gen = Doc.objs[i].gen
-                  /\ rd.view[Doc.objs[i].num].val = Expected(Doc.objs[i])
-            /\ DOMAIN rd.view \ rd.xrefobjs = Nums
-            /\ MapDel(rd.trailer, BookKeysF) = MapDel(Doc.trailer, BookKeysF)
+            /\ rd.nrevs = Len(Doc.revs)
+            /\ \A n \in DOMAIN vw :
+                  /\ Has(rd.view, n)
+                  /\ rd.view[n].gen = vw[n].gen
+                  /\ rd.view[n].val = ExpectedVal(vw[n].val)
+            /\ (DOMAIN rd.view \ rd.xrefobjs) \ ContainerNums = DOMAIN vw
+            /\ MapDel(rd.trailer, BookKeysF) = MapDel(Doc.revs[Len(Doc.revs)].trailer, BookKeysF)
 
 EmitInv ==
     (Emit /\ Done) => PrintT(<<"REPLAY", ToJson([doc |-> di, bytes |-> out, xref |-> K.xref, w |-> K.w, order |-> K.order,
-                                                  junk |-> K.junk, bin |-> K.bin])>>)
+                                                  junk |-> K.junk, bin |-> K.bin, nrevs |-> Len(Doc.revs), cuts |-> plan.cuts,
+                                                  ncomp |-> IF UseComp(K) THEN Cardinality(ContainerNums) ELSE 0,
+                                                  redefined |-> Cardinality(Redefined(Doc.revs))])>>)
 =============================================================================
